@@ -16,9 +16,10 @@
    integer tensor in its default dtype) and the harness checks the contract clauses for these instances
    on every generated case.  For exact fractions the cut is also monotone (rat_cut_monotone), which
    removes the hypothesis `cut p <= cut q` from the partition theorems. *)
+From Coq Require Import String.     (* first, so that List's length / concat stay the visible ones *)
 From Coq Require Import ZArith List Bool Permutation Sorted Lia.
 Import ListNotations.
-From KD Require Import C03.Model C03.Spec C03.Proofs.
+From KD Require Import C03.Model C03.Spec C03.Proofs C03.Proofs2.
 Open Scope Z_scope.
 
 (* ---------------- ClassFilterWrapper ---------------- *)
@@ -42,6 +43,66 @@ Theorem class_filter_keeps_original_order : forall valid cs classes,
     StronglySorted Z.lt (class_filter valid cs classes).
 Proof. exact class_filter_sorted_l. Qed.
 Print Assumptions class_filter_keeps_original_order.
+
+(* valid_classes = cs and invalid_classes = cs partition the dataset *)
+Theorem class_filter_valid_invalid_partition : forall cs classes,
+    Permutation (class_filter true cs classes ++ class_filter false cs classes) (all_ids classes).
+Proof. exact class_filter_complementary_l. Qed.
+Print Assumptions class_filter_valid_invalid_partition.
+
+(* ---------------- ClassFilterWrapper by name (valid_class_names / invalid_class_names) ---------------- *)
+(* class_name cn c = Some nm: c is a class of the dataset and nm its name (dataset.class_names[c]); several classes may
+   carry the same name, a requested name need not be carried by any class, names are compared exactly *)
+Theorem names_map_to_every_class_carrying_them : forall cn names c,
+    In c (names_to_classes cn names) <-> exists nm, class_name cn c = Some nm /\ In nm names.
+Proof. exact names_to_classes_iff. Qed.
+Print Assumptions names_map_to_every_class_carrying_them.
+
+(* a sample is selected iff the NAME of its class is requested (valid) / is not requested (invalid) *)
+Theorem class_filter_by_name_spec : forall valid cn names classes,
+    class_filter_by_name valid cn names classes = spec_class_filter_names classes valid cn names.
+Proof. exact class_filter_by_name_spec_l. Qed.
+Print Assumptions class_filter_by_name_spec.
+
+(* name based filtering = number based filtering with ANY list cs that holds exactly the numbers of all classes
+   carrying a requested name *)
+Theorem class_filter_names_eq_numbers : forall valid cn names classes cs,
+    (forall c, In c cs <-> exists nm, class_name cn c = Some nm /\ In nm names) ->
+    class_filter_by_name valid cn names classes = class_filter valid cs classes.
+Proof. exact class_filter_names_eq_numbers_l. Qed.
+Print Assumptions class_filter_names_eq_numbers.
+
+Theorem class_filter_by_name_valid_keeps_exactly_named : forall cn names classes i,
+    In i (class_filter_by_name true cn names classes) <->
+    0 <= i < zlen classes /\ exists nm, class_name cn (cls classes i) = Some nm /\ In nm names.
+Proof. exact class_filter_by_name_valid_l. Qed.
+Print Assumptions class_filter_by_name_valid_keeps_exactly_named.
+
+Theorem class_filter_by_name_invalid_drops_exactly_named : forall cn names classes i,
+    In i (class_filter_by_name false cn names classes) <->
+    0 <= i < zlen classes /\ ~ exists nm, class_name cn (cls classes i) = Some nm /\ In nm names.
+Proof. exact class_filter_by_name_invalid_l. Qed.
+Print Assumptions class_filter_by_name_invalid_drops_exactly_named.
+
+(* only WHICH of the dataset's names are requested matters: unknown names, repeated names, their order do not *)
+Theorem class_filter_by_name_depends_on_requested_set : forall valid cn names1 names2 classes,
+    (forall nm, In nm cn -> (In nm names1 <-> In nm names2)) ->
+    class_filter_by_name valid cn names1 classes = class_filter_by_name valid cn names2 classes.
+Proof. exact class_filter_by_name_ext. Qed.
+Print Assumptions class_filter_by_name_depends_on_requested_set.
+
+(* non-vacuity / the ImageNet situation: "crane" names classes 1 and 4 *)
+Example class_filter_duplicate_name_example :
+    let cn := ["tench"; "crane"; "goldfish"; "maillot"; "crane"]%string in
+    names_to_classes cn ["crane"; "zebra"; "crane"]%string = [1; 4] /\
+    class_filter_by_name true cn ["crane"]%string [4; 1; 0; 3; -1; 1; 4; 2] = [0; 1; 5; 6] /\
+    class_filter_by_name false cn ["crane"]%string [4; 1; 0; 3; -1; 1; 4; 2] = [2; 3; 4; 7] /\
+    (forall c, In c [4; 1; 1] <-> exists nm, class_name cn c = Some nm /\ In nm ["crane"]%string).
+Proof.
+  repeat split; try reflexivity.
+  - intros H. apply (names_to_classes_iff _ ["crane"]%string c). simpl in H. simpl. intuition.
+  - intros H. apply (names_to_classes_iff _ ["crane"]%string c) in H. simpl in H. simpl. intuition.
+Qed.
 
 (* ---------------- ranges: PercentFilterWrapper, SubsetWrapper ---------------- *)
 Theorem ranges_contiguous :     (forall P (O : pct_ops P) n f t cf ct out, percent_filter_g O n f t cf ct = Some out ->
@@ -471,3 +532,43 @@ Theorem selection_is_function_of_args_and_draws : forall P (O : pct_ops P) class
     run_g O classes C w = o1 -> run_g O classes C w = o2 -> o1 = o2.
 Proof. exact (@run_function). Qed.
 Print Assumptions selection_is_function_of_args_and_draws.
+
+(* ---------------- several wrappers on one dataset; wrappers on wrappers (KDSubset) ---------------- *)
+(* The model hands the labels to every constructor by value: the k-th constructor call on a dataset returns what it
+   returns as the only call - whatever was constructed before it.  True of the model by construction; that the REAL
+   constructors (and every access through a wrapper) leave the dataset's labels, the wrapper they are put on and
+   their arguments unchanged is the harness clause `construction_leaves_labels_unchanged` (label snapshots
+   around every construction / access on datasets whose getall_class hands out their own list / ndarray / tensor). *)
+Theorem later_constructor_sees_pristine_labels : forall P (O : pct_ops P) classes C ws k,
+    nth_error (run_session_g O classes C ws) k = option_map (run_g O classes C) (nth_error ws k).
+Proof. exact (@session_nth). Qed.
+Print Assumptions later_constructor_sees_pristine_labels.
+
+(* wrapper B on top of wrapper A: B's constructor runs on the labels A exposes, B's selection addresses A's positions *)
+Theorem stacked_is_composition : forall P (O : pct_ops P) classes C wA wB out,
+    stacked_g O classes C wA wB = Some out ->
+    exists a b, run_g O classes C wA = Some a /\ run_g O (through classes a) C wB = Some b /\ out = through a b.
+Proof. exact (@stacked_inv). Qed.
+Print Assumptions stacked_is_composition.
+
+(* the labels (sampler weights, any per-sample value) seen through both wrappers are what B exposes of what A exposes *)
+Theorem stacked_values_are_outer_of_inner : forall values a b,
+    (forall j, In j b -> 0 <= j < zlen a) -> through values (through a b) = through (through values a) b.
+Proof. exact through_assoc. Qed.
+Print Assumptions stacked_values_are_outer_of_inner.
+
+(* a permutation on top of a permutation is a permutation; a stack never leaves what the inner wrapper selected *)
+Theorem stacked_permutations_compose : forall classes a b,
+    Permutation a (all_ids classes) -> Permutation b (zrange 0 (zlen a)) -> Permutation (through a b) (all_ids classes).
+Proof. exact through_perm_ids. Qed.
+Print Assumptions stacked_permutations_compose.
+
+Theorem stacked_selects_from_inner_selection : forall a b x,
+    (forall j, In j b -> 0 <= j < zlen a) -> In x (through a b) -> In x a.
+Proof. exact through_In. Qed.
+Print Assumptions stacked_selects_from_inner_selection.
+
+Example stacked_example :
+    stacked_g rat_ops [1; -1; 0; 1; 0] 2 WSortByClass (WClassFilter false [-1]) = Some [2; 4; 0; 3] /\
+    through [1; -1; 0; 1; 0] [2; 4; 0; 3] = [0; 0; 1; 1].
+Proof. split; reflexivity. Qed.
